@@ -63,11 +63,26 @@ def _one(prop: str, base: str, m: Dict[str, Any], baseline: set) -> Dict[str, An
         text = text[:idx] + m['replace'] + text[idx + len(m['find']):]
         with open(path, 'w', encoding='utf8') as f:
             f.write(text)
+        for ex in m.get('extra', []):          # further edits belonging to the same variant
+            p2 = os.path.join(root, 'src', 'srctools', ex['file'])
+            with open(p2, encoding='utf8') as f:
+                t2 = f.read()
+            if ex['find'] not in t2:
+                return {'id': m['id'], 'status': 'stale', 'expect': m['expect']}
+            with open(p2, 'w', encoding='utf8') as f:
+                f.write(t2.replace(ex['find'], ex['replace'], 1))
         try:
             compile(text, path, 'exec') if path.endswith('.py') else None
         except SyntaxError as exc:
             return {'id': m['id'], 'status': 'mutant-does-not-compile', 'expect': m['expect'], 'detail': str(exc)}
         res = _run_check(prop, root)
+        if m.get('repairs'):
+            # repaired variant: the listed known findings must disappear and nothing new may be reported
+            new = [ln for ln in res.stdout.splitlines() if re.search(r' \[C\d\d\.\w+\]', ln) and _strip(ln) not in baseline and not ln.startswith('KNOWN')]
+            still = [ln for ln in res.stdout.splitlines() if ln.startswith('KNOWN-FINDING') and any(k in ln for k in m['repairs'])]
+            if res.returncode == 0 and not new and not still:
+                return {'id': m['id'], 'status': 'repair-silences', 'expect': None}
+            return {'id': m['id'], 'status': 'FALSE-ALARM', 'expect': None, 'exit': res.returncode, 'stdout_tail': ('\n'.join(still + new))[-600:]}
         if m['expect'] is None:
             # negative control: a behaviour-preserving edit must not raise an alarm (new report lines)
             new = [ln for ln in res.stdout.splitlines() if re.search(r' \[C\d\d\.\w+\]', ln) and _strip(ln) not in baseline and not ln.startswith('KNOWN')]
@@ -108,6 +123,7 @@ def run_selftest(ctx: Any, prop: str, rules: Any) -> None:
         'mutants': len(results),
         'detected': sum(1 for r in results if r['status'] == 'detected'),
         'negative_controls_silent': sum(1 for r in results if r['status'] == 'silent-ok'),
+        'repairs_silence_known_findings': sum(1 for r in results if r['status'] == 'repair-silences'),
         'stale': [r['id'] for r in results if r['status'] == 'stale'],
         'results': results,
     }
